@@ -387,3 +387,22 @@ def replay(case) -> List[Violation]:
     scratch = harness.enter_scratch()
     o = _worker([(case["config"], case["flags"], case["ctx"], case["sets"], case["cap"], case.get("var"))])
     return [Violation(s, m, c) for s, m, c in o["viol"]]
+
+
+
+# ---------------------------------------------------------------------------------------------
+# environment grid (mc/envgrid.py): what the CLI refuses, what it executes and its exit code are the same in every process
+
+def env_cases(tier: str):
+    from mc import envgrid
+
+    inv = [i for i in invocations("quick")]
+    return [{"item": list(i)} for i in envgrid.pick(inv, 70 if tier == "quick" else 600)]
+
+
+def env_observe(case):
+    from mc import envgrid
+
+    envgrid.scratch()
+    out = _worker([tuple(case["item"])])
+    return {"judged": sorted({v[0] for v in out["viol"]}), "codes": out["codes"], "executed": out["executed"]}
